@@ -177,6 +177,19 @@ CHECKS.update({
             "DESIGN.md section 4 C17"),
 })
 
+CHECKS.update({
+    "C18": ("Hypothesis model-based testing over call histories (drawn lists of context / compile / operator / lookup "
+            "steps interpreted against the library and a model: stack of active contexts + identity maps); invariants "
+            "checked after every step",
+            "Exploration: generated histories (<= 16 steps quick, <= 40 thorough, <= 3 contexts, <= 8 base circuits) with "
+            "nested distinct contexts, exceptional exits, repeated compiles, operators through module functions and "
+            "context methods, foreign circuits; after each step the active context / registry, memoisation, both "
+            "directions of the symbolic<->compiled map, operand compilation and operator provenance are checked.",
+            "Trusted: the model in vlib/props/C18.py; private names cirkit.pipeline._PIPELINE_CONTEXT and "
+            "PipelineContext._op_registry are read (never written) to observe the active context.",
+            "DESIGN.md section 4 C18"),
+})
+
 NOT_APPLICABLE = {}
 
 
